@@ -180,8 +180,10 @@ def direction_rule(ck, prog, report=None, select=None):
                 r = A.offphi[r][0]
             return r
         dirs = {}
-        for h, L in fn.loops.items():
+        allh = {i["id"] for h_ in fn.loops for i in fn.blocks[h_]["insts"] if i["op"] == "phi" and i["ty"].endswith("*") and i["id"] in A.offphi and chain_root(i["id"]) == droot}
+        for h, L in sorted(fn.loops.items(), key=lambda kv: -len(kv[1]["blocks"])):
             hphis = {i["id"] for i in fn.blocks[h]["insts"] if i["op"] == "phi" and i["ty"].endswith("*") and i["id"] in A.offphi and chain_root(i["id"]) == droot}
+            hphis = hphis or {x for x in allh if any(fn.dominates(h_, h) and h in fn.loops[h_]["_set"] for h_ in fn.loops if x in {i["id"] for i in fn.blocks[h_]["insts"] if i["op"] == "phi"})}
             signs = set()
             nst = 0
             for b in L["blocks"]:
@@ -195,8 +197,21 @@ def direction_rule(ck, prog, report=None, select=None):
                     # position of the store relative to the cursor value at the loop head: at/after it = forward, before it = backward
                     if r in hphis and off is not None and off.is_const():
                         signs.add("forward" if off.c >= 0 else "backward")
+                    elif r in hphis and off is not None and off.c >= 0 and all(v > 0 for v in off.t.values()):
+                        signs.add("forward")          # cursor[index] with a non-negative index (an inner indexed loop)
+                    elif r in hphis and off is not None and off.c < 0 and all(v < 0 for v in off.t.values()):
+                        signs.add("backward")
                     elif r == droot and off is not None and any(off == Lin.atom("off(%s)" % ph) for ph in hphis):
                         signs.add("forward")
+                    elif r == droot and off is not None:
+                        for ph in hphis:
+                            a_ = "off(%s)" % ph
+                            if off.t.get(a_) == 1:
+                                rest = off - Lin.atom(a_)
+                                if rest.c >= 0 and all(v > 0 for v in rest.t.values()):
+                                    signs.add("forward")          # cursor[index], index >= 0
+                                elif rest.c < 0 and all(v < 0 for v in rest.t.values()):
+                                    signs.add("backward")
             if not nst:
                 continue
             sign = signs.pop() if len(signs) == 1 else None
